@@ -94,7 +94,7 @@ func RunCrash(c *sim.Ctx) {
 	}
 	nOps := int(c.Knob("ops", func() int64 { return int64(c.Int("ops", 3, maxOps)) }))
 	names := []string{"a", "b", "c", "d"}[:nNames]
-	c.ProbeDecl("crash_point_after_drop_entry", "restart_reported_some_flush", "restart_reported_error", "restart_reported_no_flush", "history_with_drop_and_recreate", "batch_object_reused", "batch_object_reused_across_flush")
+	c.ProbeDecl("crash_point_after_drop_entry", "restart_reported_some_flush", "restart_reported_error", "restart_reported_no_flush", "history_with_drop_and_recreate", "batch_object_reused", "batch_object_reused_across_flush", "value_of_40KiB_written", "flush_of_one_database_in_several_batches")
 
 	disk := NewDisk()
 	prod := newFlushProducer(kind, disk)
@@ -116,6 +116,7 @@ func RunCrash(c *sim.Ctx) {
 	}
 	keptBatch := map[string]keptB{}
 
+	bigValues := int(c.Knob("big_values", func() int64 { return int64(c.PickW("big_values", []int{9, 1})) })) == 1
 	gen := func() (sim.Op, bool) {
 		if len(c.Trace.Ops) >= nOps {
 			return sim.Op{}, false
@@ -127,7 +128,11 @@ func RunCrash(c *sim.Ctx) {
 		case 1:
 			k := genKey(c, "key", 2)
 			v := genKey(c, "val", 2)
-			return sim.Op{K: "put", A: append([]int64{int64(name), int64(len(k))}, append(encBytes(k), encBytes(v)...)...)}, true
+			op := sim.Op{K: "put", A: append([]int64{int64(name), int64(len(k))}, append(encBytes(k), encBytes(v)...)...)}
+			if bigValues && c.Chance("big_value", 500) {
+				op.S = []string{"big"}
+			}
+			return op, true
 		case 2:
 			k := genKey(c, "key", 2)
 			return sim.Op{K: "del", A: append([]int64{int64(name)}, encBytes(k)...)}, true
@@ -201,6 +206,17 @@ func RunCrash(c *sim.Ctx) {
 				continue
 			}
 			k, v := decBytes(op.A[2:2+kl]), decBytes(op.A[2+kl:])
+			if len(op.S) > 0 && op.S[0] == "big" {
+				// a value of about 40 KiB (derived from the small one): three of them pending in one database make
+				// its flush exceed the ideal batch size, so the flush reaches the disk in several batch writes
+				big := make([]byte, 40*1024+len(v))
+				for i := range big {
+					big[i] = byte(i*7) ^ byte(len(v))
+				}
+				copy(big, v)
+				v = big
+				c.Probe("value_of_40KiB_written")
+			}
 			if err := h.Put(k, v); err != nil {
 				c.Violation("write-error", "write-error", "Put on %s: %v", name, err)
 			}
@@ -314,6 +330,17 @@ func RunCrash(c *sim.Ctx) {
 			m.order = append(m.order, string(id))
 			spans = append(spans, flushSpan{string(id), from, len(disk.Log)})
 			c.Count("flushes", 1)
+			perDB := map[string]int{}
+			for _, le := range disk.Log[from:] {
+				if le.Kind == LBatch && len(le.KVs) > 1 {
+					perDB[le.DB]++
+				}
+			}
+			for _, n := range perDB {
+				if n >= 2 {
+					c.Probe("flush_of_one_database_in_several_batches")
+				}
+			}
 		}
 	}
 	if recreated {
